@@ -270,9 +270,7 @@ impl<'a, W: 'static, R: 'static, T: 'static> RuntimeScope<'a, W, R, T> {
     ) -> RuntimeResult<TailedEvalResult<W, R, T>> {
         match expr {
             XExpr::LiteralBool(b) => Ok(ManagedXValue::new(XValue::Bool(*b), rt)?.into()),
-            XExpr::LiteralInt(i) => {
-                Ok(ManagedXValue::new(XValue::Int(LazyBigint::from(*i)), rt)?.into())
-            }
+            XExpr::LiteralInt(i) => Ok(ManagedXValue::new(XValue::Int(i.clone()), rt)?.into()),
             XExpr::LiteralFloat(r) => Ok(ManagedXValue::new(XValue::Float(*r), rt)?.into()),
             XExpr::LiteralString(s) => Ok(ManagedXValue::new(
                 XValue::String(Box::new(FencedString::from_string(s.clone()))),
